@@ -13,7 +13,7 @@ func c18Gen(r *rand.Rand, tier string) []spec.Case {
 	var out []spec.Case
 	n := 72
 	if tier == "thorough" {
-		n = 1000
+		n = 3000
 	}
 	protos := []string{"netrpc", "grpc", "grpcmux"}
 	pool := []string{"dispense", "call", "h2p", "p2h", "stdio"}
@@ -112,7 +112,7 @@ func init() {
 				r.Inconcl = append(r.Inconcl, fmt.Sprintf("too few graceful shutdowns observed: %v", r.Counters))
 			}
 		},
-		Rule: "cases = seeded histories (0-5 steps) of dispense / calls / brokered accept+dial host->plugin and plugin->host / stdio writes, followed by Kill, x protocol (net/rpc, gRPC, gRPC+mux) x TLS (none, AutoMTLS) x launch (Cmd, custom runner with socket dir) x plugin cleanup time; real subprocesses with private sandboxes on both sides; only graceful exits (cleanup marker present) are judged. Monitors: listing of the plugin's sandbox and the host-side temp dir, and a goroutine dump of the host process filtered on go-plugin frames, compared with the count before the case and polled up to 10 s (one case at a time per host process). Class = protocol|TLS|launch|step kinds",
+		Rule:        "cases = seeded histories (0-5 steps) of dispense / calls / brokered accept+dial host->plugin and plugin->host / stdio writes, followed by Kill, x protocol (net/rpc, gRPC, gRPC+mux) x TLS (none, AutoMTLS) x launch (Cmd, custom runner with socket dir) x plugin cleanup time; real subprocesses with private sandboxes on both sides; only graceful exits (cleanup marker present) are judged. Monitors: listing of the plugin's sandbox and the host-side temp dir, and a goroutine dump of the host process filtered on go-plugin frames, compared with the count before the case and polled up to 10 s (one case at a time per host process). Class = protocol|TLS|launch|step kinds",
 		Assumptions: []string{"the harness closes connections it dialled; servers started by AcceptAndServe are go-plugin's to stop", "goroutines started by grpc-go for a ClientConn are not go-plugin's"},
 	})
 }
